@@ -39,7 +39,12 @@ def gen_cases(tier, seed):
             # the same classes declared with STRING annotations (postponed evaluation, quoted forward references): the library
             # resolves them on every expansion, so every refinement is a new object each time
             desc = dict(desc, _string_annotations=True, name=desc["name"] + "~str")
-        for rk in REPRS:
+        variants = [(desc, REPRS)]
+        if str(desc.get("name", "")).startswith("fx_") and not desc.get("_string_annotations") and not desc.get("python"):
+            # every hand-written shape also under string annotations, for the representations that key genes by type
+            variants.append((dict(desc, _string_annotations=True, name=desc["name"] + "~str"), ["dsge", "sge"]))
+        for desc, reprs in variants:
+          for rk in reprs:
             yield {
                 "desc": desc,
                 "repr": rk,
